@@ -130,6 +130,8 @@ def scenario(rng, kind=None, mode=None, removal=None, builtin_p=0.6, prog_p=0.4)
                          "include_zero": rng.random() < 0.3}
     if kind.endswith("noniso") and rng.random() < prog_p:
         sc["want_prog"] = True
+    elif kind.endswith("_iso") and rng.random() < 0.6 * prog_p:
+        sc["want_prog"] = True          # a Conditions object carrying a programme (e.g. re-used from a non-isothermal run): ignored here
     if rng.random() < 0.15:
         sc["T0"] = int(round(sc["T0"]))          # numbers given as Python ints are admissible inputs too
         if mode == "temp":
